@@ -503,9 +503,80 @@ def sub_sphinx(acc, shard, nshards, tier, seed):
             seed=shard_seed(seed, shard, 1), is_known=known().matches)
 
 
+# ------------------------------------------------------------------ coverage-guided campaign (thorough tier)
+
+FUZZ_PRESETS = [
+    {"enable_extensions": sorted(mdgen.ALL_EXTENSIONS)},
+    {"enable_extensions": sorted(mdgen.ALL_EXTENSIONS), "heading_anchors": 3, "footnote_sort": False,
+     "substitutions": {"k": "v *em*", "blk": "- a\n- b", "cyc": "{{ cyc }}"}, "fence_as_directive": ["note", "python"],
+     "url_schemes": {"http": None, "w": {"url": "https://w/{{path}}#{{fragment}}", "classes": ["c"]}}},
+    {},
+    {"commonmark_only": True},
+    {"enable_extensions": ["colon_fence", "fieldlist", "deflist", "attrs_block", "attrs_inline", "html_image", "html_admonition"],
+     "title_to_header": True, "enable_checkboxes": True, "all_links_external": True},
+]
+FUZZ_DICT = ["```", "~~~", ":::", "{note}", "{include}", "{eval-rst}", "{figure-md}", "{code-block}", "{list-table}", "{csv-table}",
+             "{role}", "{raw}", "{math}", "{toctree}", "{contents}", "{admonition}", "{div}", "---\n", "myst:\n", "substitutions:",
+             "html_meta:", "{{", "}}", "[^", "]:", "](", "](#", "](inv:", "<inv:", "<project:", "<path:", "(x)=", "{#", "{.", ":name:",
+             ":class:", ":file:", ":literal:", ":start-after:", ":heading-offset:", "$$", "\\begin{", "\\end{", "&amp;", "<div", "<img ",
+             "class=\"admonition", "<!--", "-->", "| ", "|-", "- [ ]", "1. ", "> ", "# ", "***", "+++", "% ", "{sub-ref}`", "{ref}`",
+             "{abbr}`", "`", "~~", "www.", "Term\n: ", ":field: ", "\n\n", "\t", "\x00", "\r", "\u2028", "\x0c"]
+FUZZ_SEEDS = [
+    b"\x00# Title\n\n```{note}\n:class: c\n\nbody [^a] {{ k }}\n```\n\n[^a]: note\n",
+    b"\x01---\nmyst:\n  substitutions:\n    a: b\n---\n(t)=\n## H\n\n[](#t) <inv:#x> $$\nx\n$$ (l)\n",
+    b"\x04:::{div}\n<div class=\"admonition\">\n<img src=\"a\">\n</div>\n:::\n\nTerm\n: def\n\n| a | b |\n|---|--:|\n| 1 | 2 |\n",
+]
+
+
+def decode_fuzz_case(data: bytes) -> dict:
+    """bytes -> C01 case (shared by the fuzz target and by the parent that re-checks saved artifacts)."""
+    preset = FUZZ_PRESETS[data[0] % len(FUZZ_PRESETS)] if data else {}
+    return {"gen": "atheris", "text": data[1:].decode("utf-8", "replace"), "cfg": dict(preset)}
+
+
+def hyp_fuzz_test(callback):
+    """A Hypothesis test over all_cases() whose `.hypothesis.fuzz_one_input(bytes)` maps a byte string to one case."""
+    from hypothesis import HealthCheck, given, settings
+
+    @settings(database=None, deadline=None, suppress_health_check=list(HealthCheck))
+    @given(all_cases())
+    def test(case):
+        callback(case)
+
+    return test
+
+
+def decode_hyp_case(data: bytes):
+    got = []
+    try:
+        hyp_fuzz_test(got.append).hypothesis.fuzz_one_input(data)
+    except Exception:  # noqa: BLE001
+        pass
+    return got[0] if got else None
+
+
+def sub_atheris(acc, shard, nshards, tier, seed):
+    from vlib import fuzz
+
+    if shard % 2:
+        # structure-aware: the bytes drive Hypothesis' choices for C01's own generators
+        fuzz.run_campaign(acc, "fuzz/fuzz_parse_hyp.py", runs=12000, seed=shard_seed(seed, shard, 9),
+                          recheck=lambda c: check_case(None, c, "docutils") if c is not None else [], known=known(),
+                          max_len=600, decode=decode_hyp_case, timeout=2400, extra_args=["-len_control=0"])
+        return
+
+    fuzz.run_campaign(acc, "fuzz/fuzz_parse.py", runs=25000, seed=shard_seed(seed, shard, 9),
+                      recheck=lambda c: check_case(None, c, "docutils"), known=known(), max_len=160,
+                      dictionary=FUZZ_DICT, seeds=FUZZ_SEEDS if shard % 4 == 0 else None, decode=decode_fuzz_case,
+                      timeout=2400, extra_args=["-len_control=0"])
+
+
 def plan(tier):
-    return [Sub("docutils", sub_docutils, 10 if tier == "quick" else 16),
+    subs = [Sub("docutils", sub_docutils, 10 if tier == "quick" else 16),
             Sub("sphinx", sub_sphinx, 6 if tier == "quick" else 16)]
+    if tier == "thorough":
+        subs.append(Sub("atheris", sub_atheris, 6))
+    return subs
 
 
 def replay(sub, input):
